@@ -258,7 +258,16 @@ def fs_create_dir_all(P, c, args, dt):
     f = _fault(P, 'create_dir', p)
     if f is not None:
         return f
-    _fs(P).setdefault(p, 'DIR')
+    fs = _fs(P)
+    # a regular file at the path or at any ancestor: the directory cannot be made (ENOTDIR / EEXIST)
+    parts = [x for x in p.split('/') if x]
+    for i in range(1, len(parts) + 1):
+        anc = '/' + '/'.join(parts[:i])
+        if anc in fs and fs[anc] != 'DIR':
+            return _io_err()
+    if c.method == 'create_dir' and p in fs:
+        return _io_err()
+    fs.setdefault(p, 'DIR')
     return ok(unit())
 
 
